@@ -213,6 +213,8 @@ def radar(vc):
     vc.install(SB + "Sensor.isVisible", lambda self, *a: (True, E.VISIBLE) if base_ok else (False, E.ELEVATION_MASK))
     vc.install(RD + "@getRange", lambda sl: rng)
     r = vc.new(RD + "Radar", wavelength=lam, max_range_aux=aux)
+    # history: the same sensor object looked at another target (another cross-section) before; the answer for this one must not depend on it
+    r.isVisible("EARLIER", vc.real("vcs_earlier", 1e-3, 1e3), 0.2, "SEZ")
     ok, why = r.isVisible("TGT", vcs, 0.2, "SEZ")
     rcs = 4 * vc.pi * vcs * vcs / (lam * lam)
     maxr = (sym.fn_uf("pow", rcs, 0.25) if vc.symbolic else rcs ** 0.25) * aux
